@@ -68,8 +68,10 @@ class Const:
     _instances: MutableMapping[Any, Const] = weakref.WeakValueDictionary()
 
     def __new__(cls, const: Any) -> Const:
+        # the type is a part of the key: 1, 1.0 and True are equal, but not the same constant
+        key = (type(const), const)
         try:
-            return cls._instances[const]
+            return cls._instances[key]
             # __init__ will be invoked anyway
         except KeyError:
             hashable = True
@@ -77,7 +79,7 @@ class Const:
             hashable = False
         new = super().__new__(cls)
         if hashable:
-            cls._instances[const] = new
+            cls._instances[key] = new
         return new
 
     def __init__(self, const: Any) -> None:
